@@ -130,9 +130,18 @@ def Store.removeBySender (s : Store) (senders : List Nat) : Store :=
 
 /-! ### QXmppAtmManager -/
 
+/-- `QXmppAtmManager::removePostponedTrustDecisions(encryption, keyIds.values(), keyIds.uniqueKeys())` (repo commit
+845d75c): what is held under the sender key ids just distrusted is removed — all of it if the own account is among
+the accounts the keys were distrusted for, else only the entries whose owner is one of those accounts (the code
+removes everything held under the id and stores the out-of-scope entries again). -/
+def Store.removeBySenderQ (s : Store) (own : Nat) (keys : List (Nat × Nat)) : Store :=
+  { s with postponed := s.postponed.filter fun e =>
+      !(decide (e.sender ∈ keys.map (·.2)) &&
+        (decide (own ∈ keys.map (·.1)) || decide (e.owner ∈ keys.map (·.1)))) }
+
 /-- `QXmppAtmManager::distrust`: state -/
-def Store.distrust (s : Store) (keys : List (Nat × Nat)) : Store :=
-  if keys = [] then s else (s.setLevels keys .manDistrusted).removeBySender (keys.map (·.2))
+def Store.distrust (s : Store) (own : Nat) (keys : List (Nat × Nat)) : Store :=
+  if keys = [] then s else (s.setLevels keys .manDistrusted).removeBySenderQ own keys
 
 /-- `QXmppAtmManager::distrust`: events -/
 def Store.distrustEvs (s : Store) (keys : List (Nat × Nat)) : List Ev :=
@@ -175,7 +184,7 @@ def authF : Nat → Nat → Store → List (Nat × Nat) → Store × List Ev
     let f := s2.fetchQ own keys
     -- makeTrustDecisions(encryption, keysBeingAuthenticated, keysBeingDistrusted)
     let r := authF n own (s2.takeFired f) (targets f true)
-    (r.1.distrust (targets f false),
+    (r.1.distrust own (targets f false),
      s.beginAuthEvs keys ++ f.map .fired ++ r.2 ++ r.1.distrustEvs (targets f false))
 
 /-- `own` = own bare JID (`client()->configuration().jidBare()`) -/
@@ -185,7 +194,7 @@ def Store.authenticate (s : Store) (own : Nat) (keys : List (Nat × Nat)) : Stor
 /-- private `makeTrustDecisions(encryption, keyIdsForAuthentication, keyIdsForDistrusting)` -/
 def Store.makeTrustDecisions (s : Store) (own : Nat) (auth dis : List (Nat × Nat)) : Store × List Ev :=
   let r := s.authenticate own auth
-  (r.1.distrust dis, r.2 ++ r.1.distrustEvs dis)
+  (r.1.distrust own dis, r.2 ++ r.1.distrustEvs dis)
 
 /-- `QXmppTrustMessageKeyOwner` -/
 structure KeyOwner where
